@@ -704,6 +704,12 @@ func (sc *segmentController[T, O]) segments(ctx context.Context, reopenClosed bo
 	for i := range sc.lst {
 		if reopenClosed {
 			if err = sc.lst[i].incRef(ctx); err != nil {
+				// Release the segments already pinned in earlier iterations so a
+				// mid-loop incRef failure does not leak refs (which would block
+				// idle-close and retention-delete for them indefinitely).
+				for j := 0; j < i; j++ {
+					r[j].DecRef()
+				}
 				return nil, err
 			}
 		} else {
